@@ -37,3 +37,14 @@ func VerifComputeCacheHash(cert []byte, isPrecert bool, ikh [32]byte) [32]byte {
 func VerifStagingPath(n int64, hash [32]byte) string {
 	return stagingPath(tlog.Tree{N: n, Hash: hash})
 }
+
+// VerifCacheGet runs the real cacheGet (under poolMu, as addLeafToPool does).
+func (l *Log) VerifCacheGet(e *PendingLogEntry) (idx, ts int64, hit bool, err error) {
+	l.poolMu.Lock()
+	defer l.poolMu.Unlock()
+	se, err := l.cacheGet(e)
+	if err != nil || se == nil {
+		return 0, 0, false, err
+	}
+	return se.LeafIndex, se.Timestamp, true, nil
+}
